@@ -64,6 +64,18 @@ theorem C08_read_refines {fn : FileNode} {p : Ptr} (hwf : WF max hash st fn) (hp
   obtain ⟨r, h1, h2⟩ := readAt_spec hwf hp want
   exact ⟨r, h1, h2.data_eq, h2.len_le, h2.off_eq, h2.ptr_ok, h2.not_io, h2.eof_iff, h2.progress⟩
 
+/-- **Read, exactly which prefix**: a `Read` call before EOF delivers the plain model's `pread` cut
+at the end of the segment that holds the offset — `min want (bytes left in that segment)` bytes, no
+more, no fewer. (So the short-read freedom is fully determined by the segment list.) -/
+theorem C08_read_exact {fn : FileNode} {p : Ptr} (hwf : WF max hash st fn) (hp : PtrOK fn p) (want : Nat)
+    (hlt : p.off < fn.size) :
+    ∃ r i s o, readAt st fn p want = some r ∧ fn.segs[i]? = some s ∧ o < s.len ∧
+      sumLen (fn.segs.take i) + o = p.off ∧
+      r.data = specRead (abs st fn) p.off (min want (s.len - o)) := by
+  obtain ⟨r, h1, h2⟩ := readAt_spec hwf hp want
+  obtain ⟨i, s, o, e1, e2, e3, e4⟩ := h2.exact hlt
+  exact ⟨r, i, s, o, h1, e1, e2, e3, by rw [← e4]; exact h2.data_eq⟩
+
 /-- **truncate** equals the plain model's truncate (cut, or zero-fill when growing), for any
 target size, and bumps `repacked` whenever it changes anything (so every other pointer is
 revalidated). -/
